@@ -94,6 +94,10 @@ def ensure_no_aslr():
     cur = libc.personality(0xFFFFFFFF)
     if cur == -1 or libc.personality(cur | ADDR_NO_RANDOMIZE) == -1:
         raise HarnessError("personality(ADDR_NO_RANDOMIZE) failed")
+    # a compiler that spins (e.g. a broken scheduler loop) would otherwise write scheduler
+    # traces or objects without bound until its timeout; no legitimate file here comes close
+    import resource
+    resource.setrlimit(resource.RLIMIT_FSIZE, (256 << 20, 256 << 20))
     _NO_ASLR = True
 
 
